@@ -300,6 +300,10 @@ def step (pool : Pool) (cmd : Json) : Pool × Json :=
       match (strOf? h1).bind pool.get?, (strOf? h2).bind pool.get? with
       | some a, some b => (pool, .bool (decide (content a = content b)))
       | _, _ => (pool, err "bad eqcontent")
+    | "$knownctype", [h] =>
+      match (strOf? h).bind pool.get? with
+      | some a => (pool, .bool (knownCtype a))
+      | none => (pool, err "no handle")
     | "$uniform", [h] =>
       match (strOf? h).bind pool.get? with
       | some a => (pool, .bool (uniform a))
